@@ -173,7 +173,7 @@ func loadContractFile(pkgPath, dir string) (*ContractFile, error) {
 			}
 			cf.Lemmas = append(cf.Lemmas, Lemma{strings.TrimSpace(rest[:i]), e})
 			cur = nil
-		case "frame", "trace", "gram", "scan", "table":
+		case "frame", "trace", "gram", "scan", "table", "drv":
 			cf.Directives = append(cf.Directives, body)
 			cur = nil
 		case "func":
